@@ -33,7 +33,7 @@ RULE = ('small codes: one case per Pauli operator (all 4^n; in quick a '
         'probe vector; distinct = (class,size,deformation,vector); '
         'non-trivial = vector != 0')
 ASSUMPTIONS = ['supported size family = pv/families.py']
-REQUIRED_COUNTERS = ['vectors_classified', 'in_group', 'logical_nontrivial',
+REQUIRED_COUNTERS = ['vectors_classified', 'history_steps', 'in_group', 'logical_nontrivial',
                      'out_of_codespace', 'run_once_records']
 EXHAUSTIVE = True
 EXHAUSTIVE_SCOPE = ('per small code listed in coverage.exhaustive_codes: '
@@ -86,6 +86,9 @@ def plan(tier, seed):
                           'deformation': dname, 'kwargs': kw, 'seed': seed,
                           'tier': tier,
                           'cost': 4000 if tier == 'quick' else 40000})
+        tasks.append({'kind': 'chain', 'cls': cls, 'size': list(size),
+                      'seed': seed, 'tier': tier,
+                      'cost': 3000 if tier == 'quick' else 20000})
     tasks.append({'kind': 'run_once', 'seed': seed, 'tier': tier,
                   'cost': 3000})
     return tasks
@@ -260,6 +263,50 @@ def run_large(task, out):
                           f'(Z_{i})={lz.tolist()}', desc)
 
 
+def run_chain(task, out):
+    """History on ONE object: use it, deform, use it, deform again ...
+    Verdicts after each deformation are judged against an oracle built from
+    a FRESH object deformed once (C08 says that is what deform must give)."""
+    cls, size = task['cls'], tuple(task['size'])
+    rng = np.random.default_rng([task['seed'], 406, len(cls)])
+    defs = fam.deformations(cls)
+    seq = list(range(len(defs))) + [0, len(defs) - 1]
+    chain = fam.build(cls, size)
+    hist = []
+    nprobe = 60 if task['tier'] == 'quick' else 400
+    for di in seq:
+        dname, kw = defs[di]
+        if hist or dname is not None:
+            if dname is None:
+                continue        # there is no "un-deform" call
+            chain.deform(dname, **kw)
+        hist.append([dname, kw])
+        fresh = fam.build(cls, size, dname, kw)
+        orc = Oracle(fresh)
+        n, k = orc.n, orc.k
+        desc = {'cls': cls, 'size': list(size), 'deformation': dname,
+                'kwargs': kw, 'history': list(hist)}
+        mech = cls + (f'/{dname}' if dname else '') + '/after-history'
+        probes = [0] + list(orc.H[:20]) + list(orc.Lx) + list(orc.Lz)
+        probes += [1 << int(q) for q in rng.choice(2 * n, size=10)]
+        for _ in range(nprobe):
+            v = 0
+            for h in orc.H:
+                if rng.random() < 0.2:
+                    v ^= h
+            m = int(rng.integers(0, 3))
+            if m >= 1 and k:
+                i = int(rng.integers(0, k))
+                v ^= orc.Lx[i] if rng.random() < 0.5 else orc.Lz[i]
+            if m == 2:
+                v ^= 1 << int(rng.integers(0, 2 * n))
+            probes.append(v)
+        for e_int in probes:
+            judge(chain, orc, e_int, desc, out, mech)
+        out.count('history_steps')
+        out.case(desc, True, n=len(probes), distinct=len(set(probes) - {0}))
+
+
 class _PresetModel:
     """Error model whose generate() returns a prescribed vector."""
     def __init__(self):
@@ -331,7 +378,7 @@ def run_run_once(task, out):
 
 
 def run_task(task, out):
-    {'small': run_small, 'large': run_large,
+    {'small': run_small, 'large': run_large, 'chain': run_chain,
      'run_once': run_run_once}[task['kind']](task, out)
 
 
